@@ -150,3 +150,21 @@ rt!(c01_range_to, core::ops::RangeTo<u16>, |v| .. kani::any::<u16>(), |a, b| a =
 rt!(c01_bound, core::ops::Bound<u8>, |v| { let k: u8 = kani::any(); if k == 0 { core::ops::Bound::Included(kani::any()) } else if k == 1 { core::ops::Bound::Excluded(kani::any()) } else { core::ops::Bound::Unbounded } }, |a, b| a == b);
 // @harness name=c01_duration props=C01,C07 kind=complete tier=thorough note="~6 min: decode_fields! loops"
 rt!(c01_duration, core::time::Duration, |v| { let n: u32 = kani::any(); kani::assume(n < 1_000_000_000); core::time::Duration::new(kani::any(), n) }, |a, b| a == b);
+
+// ---- known finding D2 (see known_findings.json): this harness asserts the CORRECT behaviour on exactly the
+// listed input class and therefore FAILS while the defect exists; every other harness / contract excludes the class.
+// RFC 8949 3.3: simple values 0..=23 live in the initial byte; `f8 xx` is well-formed only for xx >= 32;
+// values 24..=31 have no well-formed encoding at all.
+// @harness name=kf_d2_simple_reserved props=C03,C11 kind=complete
+#[kani::proof]
+fn kf_d2_simple_reserved() {
+    let x: u8 = kani::any();
+    kani::assume(20 <= x && x <= 31);
+    let init: [u8; 4] = kani::any();
+    let mut e = Encoder::new(Cursor::new(init));
+    let ok = e.simple(x).is_ok();
+    let c = e.into_writer();
+    let n = c.position();
+    let buf = c.into_inner();
+    if x < 24 { assert!(ok && n == 1 && buf[0] == 0xe0 | x) } else { assert!(!ok) }
+}
